@@ -6,6 +6,7 @@ from `mk` / `unmk`: a deserializer wraps its argument into the opaque class and 
 *tag* of the conversion that was applied; a serializer unwraps and checks the stamp, so the
 monitors can observe which conversion was used at which position.
 """
+import collections
 import re
 import zlib
 
@@ -63,7 +64,7 @@ def canon12(v, depth=0):
         return (t.__name__, v)
     if hasattr(v, "_fields") and isinstance(v, tuple):
         return (cname(t), tuple(sorted((n, canon12(getattr(v, n), depth + 1)) for n in v._fields)))
-    if isinstance(v, (list, tuple)):
+    if isinstance(v, (list, tuple)) or t is collections.deque:
         return (cname(t), tuple(canon12(e, depth + 1) for e in v))
     if isinstance(v, (set, frozenset)):
         return (t.__name__, frozenset(canon12(e, depth + 1) for e in v))
